@@ -101,9 +101,13 @@ def prune(root, keep):
     except FileNotFoundError:
         return
     ds = [d for d in ds if os.path.isdir(d)]
+    ds = [d for d in ds if os.path.basename(d) != "tmp"]
     ds.sort(key=lambda d: os.path.getmtime(d), reverse=True)
+    now = time.time()
     for d in ds[keep:]:
-        shutil.rmtree(d, ignore_errors=True)
+        # never remove a directory that was (re)used within the last 3 hours: a check may still be running in it
+        if now - os.path.getmtime(d) > 3 * 3600:
+            shutil.rmtree(d, ignore_errors=True)
 
 
 def build(repo, flavor, targets, quiet=True):
@@ -125,7 +129,7 @@ def build(repo, flavor, targets, quiet=True):
         raise SystemExit(f"build failed in {bdir}")
     if not quiet:
         sys.stderr.write(r.stdout)
-    prune(root, 6)
+    prune(root, 8)
     return bdir
 
 
